@@ -9,12 +9,15 @@
 //
 // pipe:   items = (c id (p parent-ids...) author tick (f name (bytes...))...)   declared commits
 // scale:  items = (lin n) | (dia n v) | (comb n) | (octo n p)   segments of a LONG generated history, with
-//         fields (au a) (tk t): a authors (0 = every commit its own), t commits per tick; see buildShape
+//
+//	fields (au a) (tk t): a authors (0 = every commit its own), t commits per tick; see buildShape
+//
 // direct: items = (ins name n fin) | (del name n fin) | (mod name (e n)(i n)(d n)...)   with a field (merge b)
 // hib = Pipeline.HibernationDistance, pr = 1: Pipeline.PrintActions, 2: Pipeline.DumpPlan, 3: both (absent = 0)
 package main
 
 import (
+	"errors"
 	"flag"
 	"fmt"
 	"io/ioutil"
@@ -228,8 +231,10 @@ type recStep struct {
 
 // recShared is the log all instances of the recorder write to, in execution order.
 type recShared struct {
-	steps []recStep
-	next  int
+	steps  []recStep
+	next   int
+	failAt int  // >= 0: Consume returns an error at the step with this number (error path of a run); set before Initialize
+	failed bool // the error was injected
 }
 
 // recorder is forked by copy: every branch of the run has its own instance, which knows its identity and
@@ -252,7 +257,7 @@ func (r *recorder) Requires() []string {
 func (r *recorder) ListConfigurationOptions() []hercules.ConfigurationOption { return nil }
 func (r *recorder) Configure(facts map[string]interface{}) error             { return nil }
 func (r *recorder) Initialize(*git.Repository) error {
-	r.sh.steps, r.sh.next, r.id, r.hasOne = nil, 1, 0, false
+	r.sh.steps, r.sh.next, r.id, r.hasOne, r.sh.failed = nil, 1, 0, false, false
 	return nil
 }
 func (r *recorder) Fork(n int) []hercules.PipelineItem {
@@ -340,6 +345,10 @@ func (r *recorder) Consume(deps map[string]interface{}) (map[string]interface{},
 	})
 	r.sh.steps = append(r.sh.steps, st)
 	r.last, r.hasOne = commit.Hash, true
+	if r.sh.failAt >= 0 && len(r.sh.steps)-1 == r.sh.failAt {
+		r.sh.failed = true
+		return nil, errors.New("verif: injected failure")
+	}
 	return map[string]interface{}{}, nil
 }
 
@@ -452,8 +461,10 @@ func truthDiff(specs []synth.CommitSpec, parent, c int, names *table) []Sx {
 // pipeOpts are the options of one pipeline case.
 type pipeOpts struct {
 	cec, ren bool
-	hib      int   // Pipeline.HibernationDistance
-	pr       int   // bit 0: Pipeline.PrintActions, bit 1: Pipeline.DumpPlan
+	hib      int    // Pipeline.HibernationDistance
+	pr       int    // bit 0: Pipeline.PrintActions, bit 1: Pipeline.DumpPlan
+	pd       int    // > 0: IdentityDetector.PeopleDict given from outside, knowing the developers 0 .. pd-2 (the others are AuthorMissing)
+	noPlan   bool   // skip the informational second planner call
 	scale    *shape // non-nil: the commits were generated from these segments (mode scale)
 }
 
@@ -461,160 +472,33 @@ const (
 	factHibernationDistance = "Pipeline.HibernationDistance" // core.ConfigPipelineHibernationDistance
 	factPrintActions        = "Pipeline.PrintActions"        // core.ConfigPipelinePrintActions
 	factDumpPlan            = "Pipeline.DumpPlan"            // core.ConfigPipelineDumpPlan
+	factPeopleDict          = "IdentityDetector.PeopleDict"  // identity.FactIdentityDetectorPeopleDict
+	factReversedPeopleDict  = "IdentityDetector.ReversedPeopleDict"
 )
 
-func runPipe(c *Config, kind string, o pipeOpts, cs []commitIn) {
-	cec, ren := o.cec, o.ren
-	var head []Sx
-	if o.scale != nil {
-		head = []Sx{T("kind", A(kind)), T("nt", B(len(cs) >= 3)), T("mode", A("scale")), T("cec", B(cec)), T("ren", B(ren)), T("hib", I(o.hib)), T("pr", I(o.pr)),
-			T("au", I(o.scale.au)), T("tk", I(o.scale.tk)), T("items", o.scale.sx()...)}
-	} else {
-		var items []Sx
-		for _, ci := range cs {
-			items = append(items, ci.sx())
-		}
-		head = []Sx{T("kind", A(kind)), T("nt", B(len(cs) >= 3)), T("mode", A("pipe")), T("cec", B(cec)), T("ren", B(ren)), T("hib", I(o.hib)), T("pr", I(o.pr)), T("items", items...)}
-	}
-	specs := toSpecs(cs)
-	if len(specs) == 0 {
-		c.Emit(append(head, T("obs", T("empty")))...)
-		return
-	}
-	repo, commits := synth.BuildRepo(specs)
-	cidx := map[plumbing.Hash]int{}
-	for i, cm := range commits {
-		if _, dup := cidx[cm.Hash]; !dup {
-			cidx[cm.Hash] = i
-		}
-	}
-	names, langs := newTable(), newTable()
-	langs.id("")
+// leafSet holds the leaf items of an analysis; a re-use case hands the SAME instances to several pipelines.
+type leafSet struct {
+	devs *leaves.DevsAnalysis
+	cst  *leaves.CommitsAnalysis
+}
 
-	var obs []Sx
-	rec := &recorder{sh: &recShared{}}
-	var devsRes leaves.DevsResult
-	var commitsRes leaves.CommitsResult
-	var itemNames []string
-	var runErr error
-	msg, panicked := Catch(func() {
-		p := hercules.NewPipeline(repo)
-		devs := p.DeployItem(&leaves.DevsAnalysis{}).(hercules.LeafPipelineItem)
-		cst := p.DeployItem(&leaves.CommitsAnalysis{}).(hercules.LeafPipelineItem)
-		p.DeployItem(rec)
-		facts := map[string]interface{}{
-			hercules.ConfigPipelineCommits:        commits,
-			leaves.ConfigDevsConsiderEmptyCommits: cec,
-		}
-		if ren {
-			// the command line default; without the fact the threshold stays 0 (everything big enough pairs up)
-			facts[api.ConfigRenameAnalysisSimilarityThreshold] = 80
-		}
-		if o.hib > 0 || c.N%2 == 0 {
-			// distance 0 is also given explicitly in half of the cases (fact present / absent)
-			facts[factHibernationDistance] = o.hib
-		}
-		if o.pr&1 != 0 {
-			facts[factPrintActions] = true
-		}
-		if o.pr&2 != 0 {
-			facts[factDumpPlan] = true
-		}
-		if o.pr != 0 {
-			// the plan / the actions are printed to os.Stderr at call time; the harness prints nothing but the trace
-			if null, err := os.OpenFile(os.DevNull, os.O_WRONLY, 0); err == nil {
-				saved := os.Stderr
-				os.Stderr = null
-				defer func() { os.Stderr = saved; null.Close() }()
-			}
-		}
-		if runErr = p.Initialize(facts); runErr != nil {
-			return
-		}
-		if p.HibernationDistance != o.hib {
-			runErr = fmt.Errorf("hibernation distance not taken")
-			return
-		}
-		for _, it := range p.VerifItems() {
-			itemNames = append(itemNames, it.Name())
-		}
-		var out map[hercules.LeafPipelineItem]interface{}
-		out, runErr = p.Run(commits)
-		if runErr != nil {
-			return
-		}
-		devsRes = out[devs].(leaves.DevsResult)
-		commitsRes = out[cst].(leaves.CommitsResult)
-	})
-	if panicked {
-		_ = msg
-		c.Emit(append(head, T("obs", T("panic")))...)
-		return
-	}
-	if runErr != nil {
-		c.Emit(append(head, T("obs", T("error")))...)
-		return
-	}
+// analysis is one Initialize + Run of a pipeline and what was observed.
+type analysis struct {
+	status     string // ok | empty | panic | error | failed (the recorder returned the error it was told to return)
+	pre        []Sx   // plan, truth, pipeline, steps
+	haveRes    bool
+	devsRes    leaves.DevsResult
+	commitsRes leaves.CommitsResult
+	names      *table
+	langs      *table
+	cidx       map[plumbing.Hash]int
+	commits    []*object.Commit
+	first      string // the results as serialised when the run ended
+}
 
-	// the plan of a separate planner call, for information only (the planner is not deterministic across calls);
-	// not for the long histories
-	var plan []verifapi.VerifAction
-	var planSx []Sx
-	if o.scale != nil {
-		planSx = append(planSx, A("skipped"))
-	} else {
-		plan = verifapi.PrepareRunPlan(commits, 0)
-	}
-	for _, a := range plan {
-		switch a.Action {
-		case verifapi.ActionCommit:
-			planSx = append(planSx, T("c", I(cidx[a.Commit.Hash]), I(a.Items[0])))
-		case verifapi.ActionFork:
-			planSx = append(planSx, T("f", Ints(a.Items).List...))
-		case verifapi.ActionMerge:
-			planSx = append(planSx, T("m", Ints(a.Items).List...))
-		case verifapi.ActionEmerge:
-			planSx = append(planSx, T("e", Ints(a.Items).List...))
-		case verifapi.ActionDelete:
-			planSx = append(planSx, T("d", Ints(a.Items).List...))
-		default:
-			planSx = append(planSx, T("x", I(a.Action)))
-		}
-	}
-	obs = append(obs, T("plan", planSx...))
-	// declared truth of every executed replay step: the commit against the commit its branch held before
-	var truth []Sx
-	for _, st := range rec.sh.steps {
-		par := -1
-		if st.hasPrev {
-			par = cidx[st.prev]
-		}
-		ci := cidx[st.hash]
-		truth = append(truth, T("on", append([]Sx{I(ci), I(par)}, truthDiff(specs, par, ci, names)...)...))
-	}
-	obs = append(obs, T("truth", truth...))
-	var pipeline []Sx
-	for _, n := range itemNames {
-		pipeline = append(pipeline, A(n))
-	}
-	obs = append(obs, T("pipeline", pipeline...))
-
-	// the replay steps as the items saw them
-	var steps []Sx
-	for _, s := range rec.sh.steps {
-		var chs []Sx
-		for _, ch := range s.changes {
-			chs = append(chs, changeSx(ch, names, langs))
-		}
-		var sts []Sx
-		for _, x := range s.stats {
-			sts = append(sts, T("k", I(x.side), I(names.id(x.name)), I(langs.id(x.lang)), I(x.a), I(x.r), I(x.c)))
-		}
-		steps = append(steps, T("s", I(cidx[s.hash]), I(s.nparents), B(s.isMerge), I(s.author), I(s.tick), I(s.index), T("ch", chs...), T("st", sts...), I(s.inst)))
-	}
-	obs = append(obs, T("steps", steps...))
-
-	// DevsResult
+// results serialises the retained DevsResult and CommitsResult (again): (devs ...) (commits ...) (lhashes ...).
+func (a *analysis) results() []Sx {
+	devsRes, commitsRes, names, langs := a.devsRes, a.commitsRes, a.names, a.langs
 	var tks []int
 	for t := range devsRes.Ticks {
 		tks = append(tks, t)
@@ -642,12 +526,9 @@ func runPipe(c *Config, kind string, o pipeOpts, cs []commitIn) {
 			devSx = append(devSx, T("t", I(t), I(d), I(dt.Commits), I(dt.Added), I(dt.Removed), I(dt.Changed), T("langs", lsx...)))
 		}
 	}
-	obs = append(obs, T("devs", devSx...))
-
-	// CommitsResult
-	var cSx []Sx
+	var cSx, lh []Sx
 	for _, cm := range commitsRes.Commits {
-		ci, ok := cidx[plumbing.NewHash(cm.Hash)]
+		ci, ok := a.cidx[plumbing.NewHash(cm.Hash)]
 		if !ok {
 			ci = -1
 		}
@@ -662,12 +543,303 @@ func runPipe(c *Config, kind string, o pipeOpts, cs []commitIn) {
 		for _, f := range fs {
 			fsx = append(fsx, T("fl", I(names.id(f.Name)), I(langs.id(f.Language)), I(f.Added), I(f.Removed), I(f.Changed)))
 		}
-		whenOK := ci >= 0 && cm.When == commits[ci].Author.When.Unix()
+		whenOK := ci >= 0 && cm.When == a.commits[ci].Author.When.Unix()
 		cSx = append(cSx, T("c", I(ci), B(whenOK), I(cm.Author), T("files", fsx...)))
+		lh = append(lh, A("h"+cm.Hash))
 	}
-	obs = append(obs, T("commits", cSx...))
-	// author of every declared commit as the people dictionary numbers it
-	obs = append(obs, names.sx("names"), langs.sx("langs"))
+	return []Sx{T("devs", devSx...), T("commits", cSx...), T("lhashes", lh...)}
+}
+
+// obs gives the observation fields of the analysis; late = serialise the retained results again.
+func (a *analysis) obs(late bool) []Sx {
+	switch a.status {
+	case "empty", "panic", "error":
+		return []Sx{T(a.status)}
+	}
+	var res []Sx
+	if a.status == "failed" {
+		res = append(res, T("failed"))
+	}
+	res = append(res, a.pre...)
+	if a.haveRes {
+		res = append(res, a.results()...)
+	}
+	return append(res, a.names.sx("names"), a.langs.sx("langs"))
+}
+
+func sxString(xs []Sx) string {
+	var sb strings.Builder
+	for _, x := range xs {
+		sb.WriteString(x.String())
+	}
+	return sb.String()
+}
+
+// analyse builds the repository of the declared commits and runs a NEW pipeline on it with the leaf items of ls
+// (new instances when ls is nil).  failAt >= 0: the recording item returns an error at that step.
+func analyse(c *Config, o pipeOpts, cs []commitIn, ls *leafSet, failAt int) *analysis {
+	cec, ren := o.cec, o.ren
+	a := &analysis{status: "ok", names: newTable(), langs: newTable(), cidx: map[plumbing.Hash]int{}}
+	specs := toSpecs(cs)
+	if len(specs) == 0 {
+		a.status = "empty"
+		return a
+	}
+	repo, commits := synth.BuildRepo(specs)
+	a.commits = commits
+	cidx := a.cidx
+	for i, cm := range commits {
+		if _, dup := cidx[cm.Hash]; !dup {
+			cidx[cm.Hash] = i
+		}
+	}
+	names, langs := a.names, a.langs
+	langs.id("")
+	if ls == nil {
+		ls = &leafSet{&leaves.DevsAnalysis{}, &leaves.CommitsAnalysis{}}
+	}
+
+	rec := &recorder{sh: &recShared{failAt: failAt}}
+	var itemNames []string
+	var runErr error
+	_, panicked := Catch(func() {
+		if o.pr != 0 || failAt >= 0 {
+			// the plan / the actions are printed to os.Stderr at call time, a failing run is logged to the os.Stderr the
+			// pipeline's logger saw when it was made; the harness prints nothing but the trace
+			if null, err := os.OpenFile(os.DevNull, os.O_WRONLY, 0); err == nil {
+				saved := os.Stderr
+				os.Stderr = null
+				defer func() { os.Stderr = saved; null.Close() }()
+			}
+		}
+		p := hercules.NewPipeline(repo)
+		devs := p.DeployItem(ls.devs).(hercules.LeafPipelineItem)
+		cst := p.DeployItem(ls.cst).(hercules.LeafPipelineItem)
+		p.DeployItem(rec)
+		facts := map[string]interface{}{
+			hercules.ConfigPipelineCommits:        commits,
+			leaves.ConfigDevsConsiderEmptyCommits: cec,
+		}
+		if ren {
+			// the command line default; without the fact the threshold stays 0 (everything big enough pairs up)
+			facts[api.ConfigRenameAnalysisSimilarityThreshold] = 80
+		}
+		if o.hib > 0 || c.N%2 == 0 {
+			// distance 0 is also given explicitly in half of the cases (fact present / absent)
+			facts[factHibernationDistance] = o.hib
+		}
+		if o.pd > 0 {
+			// a people dictionary from outside that knows the developers 0 .. pd-2 only: everybody else is AuthorMissing
+			pdict, rdict := map[string]int{}, []string{}
+			for d := 0; d < o.pd-1; d++ {
+				au := fmt.Sprintf("dev%d", d)
+				pdict[au], pdict[au+"@x"] = d, d
+				rdict = append(rdict, au+"|"+au+"@x")
+			}
+			facts[factPeopleDict], facts[factReversedPeopleDict] = pdict, rdict
+		}
+		if o.pr&1 != 0 {
+			facts[factPrintActions] = true
+		}
+		if o.pr&2 != 0 {
+			facts[factDumpPlan] = true
+		}
+		if runErr = p.Initialize(facts); runErr != nil {
+			return
+		}
+		if p.HibernationDistance != o.hib {
+			runErr = fmt.Errorf("hibernation distance not taken")
+			return
+		}
+		for _, it := range p.VerifItems() {
+			itemNames = append(itemNames, it.Name())
+		}
+		var out map[hercules.LeafPipelineItem]interface{}
+		out, runErr = p.Run(commits)
+		if runErr != nil {
+			if rec.sh.failed {
+				// the error path: no result from Run; observe what the leaf items hold by calling Finalize ourselves
+				a.devsRes, a.commitsRes, a.haveRes = ls.devs.Finalize().(leaves.DevsResult), ls.cst.Finalize().(leaves.CommitsResult), true
+			}
+			return
+		}
+		a.devsRes, a.commitsRes, a.haveRes = out[devs].(leaves.DevsResult), out[cst].(leaves.CommitsResult), true
+	})
+	if panicked {
+		a.status = "panic"
+		return a
+	}
+	if runErr != nil {
+		if !rec.sh.failed || !a.haveRes {
+			a.status = "error"
+			return a
+		}
+		a.status = "failed"
+	} else if rec.sh.failed {
+		a.status = "error" // the injected error was swallowed
+		return a
+	}
+
+	// the plan of a separate planner call, for information only (the planner is not deterministic across calls);
+	// not for the long histories
+	var plan []verifapi.VerifAction
+	var planSx []Sx
+	if o.scale != nil || o.noPlan {
+		planSx = append(planSx, A("skipped"))
+	} else {
+		plan = verifapi.PrepareRunPlan(commits, 0)
+	}
+	for _, a := range plan {
+		switch a.Action {
+		case verifapi.ActionCommit:
+			planSx = append(planSx, T("c", I(cidx[a.Commit.Hash]), I(a.Items[0])))
+		case verifapi.ActionFork:
+			planSx = append(planSx, T("f", Ints(a.Items).List...))
+		case verifapi.ActionMerge:
+			planSx = append(planSx, T("m", Ints(a.Items).List...))
+		case verifapi.ActionEmerge:
+			planSx = append(planSx, T("e", Ints(a.Items).List...))
+		case verifapi.ActionDelete:
+			planSx = append(planSx, T("d", Ints(a.Items).List...))
+		default:
+			planSx = append(planSx, T("x", I(a.Action)))
+		}
+	}
+	a.pre = append(a.pre, T("plan", planSx...))
+	// declared truth of every executed replay step: the commit against the commit its branch held before
+	var truth []Sx
+	for _, st := range rec.sh.steps {
+		par := -1
+		if st.hasPrev {
+			par = cidx[st.prev]
+		}
+		ci := cidx[st.hash]
+		truth = append(truth, T("on", append([]Sx{I(ci), I(par)}, truthDiff(specs, par, ci, names)...)...))
+	}
+	a.pre = append(a.pre, T("truth", truth...))
+	var pipeline []Sx
+	for _, n := range itemNames {
+		pipeline = append(pipeline, A(n))
+	}
+	a.pre = append(a.pre, T("pipeline", pipeline...))
+
+	// the replay steps as the items saw them
+	var steps []Sx
+	for _, s := range rec.sh.steps {
+		var chs []Sx
+		for _, ch := range s.changes {
+			chs = append(chs, changeSx(ch, names, langs))
+		}
+		var sts []Sx
+		for _, x := range s.stats {
+			sts = append(sts, T("k", I(x.side), I(names.id(x.name)), I(langs.id(x.lang)), I(x.a), I(x.r), I(x.c)))
+		}
+		steps = append(steps, T("s", I(cidx[s.hash]), I(s.nparents), B(s.isMerge), I(s.author), I(s.tick), I(s.index), T("ch", chs...), T("st", sts...), I(s.inst)))
+	}
+	a.pre = append(a.pre, T("steps", steps...))
+	a.first = sxString(a.results())
+	return a
+}
+
+func optFields(o pipeOpts) []Sx {
+	fs := []Sx{T("cec", B(o.cec)), T("ren", B(o.ren)), T("hib", I(o.hib)), T("pr", I(o.pr))}
+	if o.pd > 0 {
+		fs = append(fs, T("pd", I(o.pd)))
+	}
+	return fs
+}
+
+func runPipe(c *Config, kind string, o pipeOpts, cs []commitIn) {
+	head := []Sx{T("kind", A(kind)), T("nt", B(len(cs) >= 3))}
+	if o.scale != nil {
+		head = append(append(append(head, T("mode", A("scale"))), optFields(o)...), T("au", I(o.scale.au)), T("tk", I(o.scale.tk)), T("items", o.scale.sx()...))
+	} else {
+		var items []Sx
+		for _, ci := range cs {
+			items = append(items, ci.sx())
+		}
+		head = append(append(append(head, T("mode", A("pipe"))), optFields(o)...), T("items", items...))
+	}
+	a := analyse(c, o, cs, nil, -1)
+	c.Emit(append(head, T("obs", a.obs(false)...))...)
+}
+
+// ---------------------------------------------------------------------------------------------
+// re-use of the leaf items (mode reuse): several analyses, each with a NEW pipeline, DeployItem of the SAME
+// DevsAnalysis (and, with (rc 1), the same CommitsAnalysis) instance, Initialize, Run - on the same history, on a
+// prefix of it (the history has grown / shrunk in between), on a variant with other hashes (another repository);
+// an analysis may be told to fail half way (the recording item returns an error).  Every analysis is judged like a
+// first one.  After the last one the results of the earlier ones are serialised again: they must not have changed.
+
+type runIn struct {
+	cut  int  // analyse the first cut declared commits (0 = all)
+	alt  int  // > 0: every commit carries an extra file: all hashes differ from those of the other variants
+	cec  bool // Devs.ConsiderEmptyCommits of this analysis
+	hib  int  // Pipeline.HibernationDistance of this analysis
+	fail int  // >= 0: the recording item fails at this step
+}
+
+func (r runIn) sx() Sx { return T("r", I(r.cut), I(r.alt), B(r.cec), I(r.hib), I(r.fail)) }
+
+func parseRuns(cs Sx) []runIn {
+	var rs []runIn
+	if f, ok := cs.Field("runs"); ok {
+		for _, r := range f.Args() {
+			rs = append(rs, runIn{r.List[1].Int(), r.List[2].Int(), r.List[3].Int() != 0, r.List[4].Int(), r.List[5].Int()})
+		}
+	}
+	return rs
+}
+
+func runReuse(c *Config, kind string, o pipeOpts, reuseCommits bool, runs []runIn, cs []commitIn) {
+	head := []Sx{T("kind", A(kind)), T("nt", B(len(cs) >= 3 && len(runs) >= 2)), T("mode", A("reuse")), T("ren", B(o.ren)), T("pr", I(o.pr))}
+	if o.pd > 0 {
+		head = append(head, T("pd", I(o.pd)))
+	}
+	head = append(head, T("rc", B(reuseCommits)))
+	var rsx []Sx
+	for _, r := range runs {
+		rsx = append(rsx, r.sx())
+	}
+	head = append(head, T("runs", rsx...))
+	if o.scale != nil {
+		head = append(head, T("au", I(o.scale.au)), T("tk", I(o.scale.tk)), T("items", o.scale.sx()...))
+	} else {
+		var items []Sx
+		for _, ci := range cs {
+			items = append(items, ci.sx())
+		}
+		head = append(head, T("items", items...))
+	}
+	ls := &leafSet{&leaves.DevsAnalysis{}, &leaves.CommitsAnalysis{}}
+	var as []*analysis
+	var obs []Sx
+	for i, r := range runs {
+		sub := cs
+		if r.cut > 0 && r.cut < len(cs) {
+			sub = cs[:r.cut]
+		}
+		if r.alt > 0 {
+			sub = append([]commitIn{}, sub...)
+			for j := range sub {
+				sub[j].Files = append(append([]fileIn{}, sub[j].Files...), fileIn{Name: fmt.Sprintf("zz-alt%d.md", r.alt), Data: []byte(fmt.Sprintf("variant %d\n", r.alt))})
+			}
+		}
+		ro := o
+		ro.cec, ro.hib, ro.noPlan = r.cec, r.hib, true
+		if !reuseCommits {
+			ls.cst = &leaves.CommitsAnalysis{}
+		}
+		a := analyse(c, ro, sub, ls, r.fail)
+		as = append(as, a)
+		obs = append(obs, T("run", I(i), B(false), B(r.cec), I(r.hib), T("obs", a.obs(false)...)))
+	}
+	// the results handed out by the earlier analyses, observed again after the items were used again
+	for i, a := range as {
+		if a.haveRes && a.status == "ok" && sxString(a.results()) != a.first {
+			obs = append(obs, T("run", I(i), B(true), B(runs[i].cec), I(runs[i].hib), T("obs", a.obs(true)...)))
+		}
+	}
 	c.Emit(append(head, T("obs", obs...))...)
 }
 
@@ -682,7 +854,6 @@ func changeSx(ch recChange, names, langs *table) Sx {
 	}
 	return T("mod", I(names.id(ch.name)), I(langs.id(ch.lang)), I(names.id(ch.from)), B(ch.hasFD), I(ch.old), I(ch.new), T("ds", ds...))
 }
-
 
 // ---------------------------------------------------------------------------------------------
 // long histories (mode scale): a handful of segment kinds, generated deterministically
@@ -1417,8 +1588,8 @@ func scaleCases(c *Config) {
 	cases := []sc{
 		{"scale-diamonds", pipeOpts{ren: true}, shape{au: 7, tk: 64, segs: segsOf("dia", 1100, 0)}},
 		{"scale-diamonds-mixed", pipeOpts{cec: false, ren: true, hib: 1}, shape{au: 1, tk: 5, segs: segsOf("dia", 1030, 3)}}, // 619 ticks
-		{"scale-linear", pipeOpts{ren: false}, shape{au: 1, tk: 3000, segs: segsOf("lin", 10000, 0)}}, // 3000 commits of one developer in one tick
-		{"scale-comb", pipeOpts{cec: true, ren: true, hib: 2}, shape{au: 300, tk: 1500, segs: segsOf("comb", 1000, 0)}}, // 300 developers
+		{"scale-linear", pipeOpts{ren: false}, shape{au: 1, tk: 3000, segs: segsOf("lin", 10000, 0)}},                        // 3000 commits of one developer in one tick
+		{"scale-comb", pipeOpts{cec: true, ren: true, hib: 2}, shape{au: 300, tk: 1500, segs: segsOf("comb", 1000, 0)}},      // 300 developers
 		{"scale-octo", pipeOpts{ren: true, hib: 3}, shape{au: 4, tk: 33, segs: segsOf("octo", 150, 7)}},
 		{"scale-octo-wide", pipeOpts{cec: true, ren: true, hib: 4}, shape{au: 2, tk: 65, segs: cat(segsOf("octo", 12, 33), segsOf("octo", 6, 65))}},
 		{"scale-mixed", pipeOpts{cec: true, ren: true, hib: 1}, shape{au: 7, tk: 31,
@@ -1437,6 +1608,194 @@ func scaleCases(c *Config) {
 	}
 	for i := range cases {
 		runScale(c, cases[i].kind, cases[i].o, &cases[i].sh)
+	}
+}
+
+// twinFiles gives one file of one commit the content of another file of that commit: two changes of one commit that
+// reach the same blob (from different old blobs), or two new files with one blob.
+func twinFiles(c *Config, cs []commitIn) {
+	var cand []int
+	for i, ci := range cs {
+		if len(ci.Files) >= 2 {
+			cand = append(cand, i)
+		}
+	}
+	if len(cand) == 0 {
+		return
+	}
+	i := cand[c.Rng.Intn(len(cand))]
+	fs := append([]fileIn{}, cs[i].Files...)
+	a := c.Rng.Intn(len(fs))
+	b := (a + 1 + c.Rng.Intn(len(fs)-1)) % len(fs)
+	fs[b].Data = fs[a].Data
+	cs[i].Files = fs
+}
+
+// drawRuns draws the analyses of a re-use case over a history of n commits.
+func drawRuns(c *Config, n int) (string, []runIn) {
+	k := 2 + c.Rng.Intn(2)
+	runs := make([]runIn, k)
+	kind, fails := "reuse-same", false
+	shapeOf := c.Rng.Intn(4) // 0: the same history every time; 1: it grows; 2: arbitrary prefixes; 3: other repositories in between
+	for i := range runs {
+		r := runIn{cec: c.Rng.Intn(2) == 0, hib: drawHib(c), fail: -1}
+		switch shapeOf {
+		case 1:
+			kind = "reuse-grown"
+			if i < k-1 && n > 1 {
+				r.cut = 1 + (n-1)*(i+1)/k + c.Rng.Intn(2)
+			}
+		case 2:
+			kind = "reuse-prefixes"
+			if c.Rng.Intn(2) == 0 {
+				r.cut = 1 + c.Rng.Intn(n)
+			}
+		case 3:
+			kind = "reuse-other"
+			if c.Rng.Intn(2) == 0 {
+				r.alt = 1 + c.Rng.Intn(2)
+			}
+		}
+		if i < k-1 && c.Rng.Intn(6) == 0 {
+			// the error path: this analysis fails half way; the items are used again afterwards
+			r.fail = c.Rng.Intn(n + 1)
+			fails = true
+		}
+		runs[i] = r
+	}
+	if fails {
+		kind = "reuse-fail"
+	}
+	return kind, runs
+}
+
+// reuseExhaustive: every history of n commits (as exhaustiveDags) analysed twice with the same leaf items: all of it
+// twice (n <= 3), and the first n-1 commits then all of it.  For n = 4 only the histories with a commit of several
+// parents, one setting of ConsiderEmptyCommits.
+func reuseExhaustive(c *Config, n int) {
+	var subsets func(i int) [][]int
+	subsets = func(i int) [][]int {
+		var res [][]int
+		for m := 0; m < 1<<uint(i); m++ {
+			var ps []int
+			for b := 0; b < i; b++ {
+				if m&(1<<uint(b)) != 0 {
+					ps = append(ps, b)
+				}
+			}
+			if len(ps) <= 3 {
+				res = append(res, ps)
+			}
+		}
+		return res
+	}
+	parents := make([][]int, n)
+	var rec func(i int)
+	rec = func(i int) {
+		if i == n {
+			merges := false
+			for _, ps := range parents {
+				if len(ps) >= 2 {
+					merges = true
+				}
+			}
+			if n >= 4 && !merges {
+				return
+			}
+			for bits := 0; bits < 1<<uint(n); bits++ {
+				cs := make([]commitIn, n)
+				for j := 0; j < n; j++ {
+					cs[j] = commitIn{ID: j, Parents: append([]int{}, parents[j]...), Author: j % 2, Tick: j / 2}
+					if bits&(1<<uint(j)) != 0 {
+						var sb strings.Builder
+						for l := 0; l <= j; l++ {
+							fmt.Fprintf(&sb, "x%d-%d\n", j, l%2)
+						}
+						cs[j].Files = []fileIn{{Name: "a.go", Data: []byte(sb.String())}}
+						if j%3 == 2 {
+							cs[j].Files = append(cs[j].Files, fileIn{Name: "b.py", Data: []byte(fmt.Sprintf("y%d\n", j))})
+						}
+					} else if len(parents[j]) > 0 {
+						cs[j].Files = append([]fileIn{}, cs[parents[j][0]].Files...)
+					}
+				}
+				for _, cec := range []bool{false, true} {
+					if n >= 4 && cec != (bits%2 == 0) {
+						continue
+					}
+					rc := bits%2 == 1
+					if n >= 4 {
+						rc = bits%4 >= 2
+					}
+					kind := fmt.Sprintf("reuse-exhaustive-%d", n)
+					if n <= 3 || bits%3 == 0 {
+						runReuse(c, kind, pipeOpts{ren: true}, rc, []runIn{{cec: cec, fail: -1}, {cec: cec, fail: -1}}, cs)
+					}
+					if n >= 2 && (n <= 3 || bits%3 != 0) {
+						runReuse(c, kind, pipeOpts{ren: true}, rc, []runIn{{cut: n - 1, cec: cec, fail: -1}, {cec: !cec, fail: -1}, {cec: cec, fail: -1}}, cs)
+					}
+				}
+			}
+			return
+		}
+		for _, ps := range subsets(i) {
+			parents[i] = ps
+			rec(i + 1)
+		}
+	}
+	rec(0)
+}
+
+// reuseCases: the re-use family.
+func reuseCases(c *Config) {
+	for n := 1; n <= 3; n++ {
+		reuseExhaustive(c, n)
+	}
+	reuseExhaustive(c, 4)
+	if c.Thorough() {
+		reuseExhaustive(c, 5)
+	}
+	for _, k := range []struct {
+		kind string
+		q, t int
+	}{{"hist", 500, 6000}, {"hist-single", 300, 4000}, {"empties", 300, 4000}, {"octo", 150, 3000}, {"shape", 250, 4000}} {
+		for i := c.Count(k.q, k.t); i > 0; i-- {
+			o := pipeOpts{ren: c.Rng.Intn(2) == 0, pr: drawPr(c)}
+			if c.Rng.Intn(6) == 0 {
+				o.pd = 1 + c.Rng.Intn(3)
+			}
+			var cs []commitIn
+			if k.kind == "shape" {
+				o.scale = genShape(c)
+				cs = buildShape(o.scale)
+			} else {
+				cs = genPipe(c, k.kind)
+				if c.Rng.Intn(6) == 0 {
+					skewTicks(c, cs)
+				}
+			}
+			kind, runs := drawRuns(c, len(cs))
+			runReuse(c, kind, o, c.Rng.Intn(2) == 0, runs, cs)
+		}
+	}
+	// long histories with re-used items: more than 2^10 merge commits remembered from the analysis before
+	type sc struct {
+		o    pipeOpts
+		rc   bool
+		runs []runIn
+		sh   shape
+	}
+	cases := []sc{
+		{pipeOpts{ren: true}, false, []runIn{{cut: 1500, cec: true, hib: 1, fail: -1}, {fail: -1}, {cec: true, hib: 2, fail: -1}}, shape{au: 5, tk: 40, segs: segsOf("dia", 1100, 3)}},
+		{pipeOpts{ren: true}, true, []runIn{{fail: 700, hib: 2}, {alt: 1, fail: -1}, {cec: true, fail: -1}}, shape{au: 3, tk: 17, segs: append(segsOf("octo", 60, 5), segsOf("comb", 150, 0)...)}},
+	}
+	if c.Thorough() {
+		cases = append(cases, sc{pipeOpts{ren: true}, true, []runIn{{cut: 20000, fail: -1}, {hib: 3, fail: -1}, {cec: true, fail: -1}}, shape{au: 7, tk: 500, segs: segsOf("dia", 10000, 3)}})
+	}
+	for i := range cases {
+		o := cases[i].o
+		o.scale = &cases[i].sh
+		runReuse(c, "reuse-scale", o, cases[i].rc, cases[i].runs, buildShape(o.scale))
 	}
 }
 
@@ -1462,7 +1821,20 @@ func main() {
 				runDirect(c, kind, merge.List[1].Int() != 0, chs)
 				continue
 			}
-			o := pipeOpts{cec: optField(cs, "cec") != 0, ren: optField(cs, "ren") != 0, hib: optField(cs, "hib"), pr: optField(cs, "pr")}
+			o := pipeOpts{cec: optField(cs, "cec") != 0, ren: optField(cs, "ren") != 0, hib: optField(cs, "hib"), pr: optField(cs, "pr"), pd: optField(cs, "pd")}
+			if mode.List[1].Atom == "reuse" {
+				var cis []commitIn
+				if _, segs := cs.Field("au"); segs {
+					o.scale = parseShape(cs, items)
+					cis = buildShape(o.scale)
+				} else {
+					for _, it := range items.Args() {
+						cis = append(cis, parseCommit(it))
+					}
+				}
+				runReuse(c, kind, o, optField(cs, "rc") != 0, parseRuns(cs), cis)
+				continue
+			}
 			if mode.List[1].Atom == "scale" {
 				runScale(c, kind, o, parseShape(cs, items))
 				continue
@@ -1515,6 +1887,10 @@ func main() {
 		}{{"hist", 1200, 12000}, {"hist-single", 800, 8000}, {"empties", 1200, 12000}, {"linear", 800, 10000}, {"octo", 500, 8000}, {"shape", 500, 8000}} {
 			for i := c.Count(k.q, k.t); i > 0; i-- {
 				o := pipeOpts{cec: c.Rng.Intn(2) == 0, ren: c.Rng.Intn(2) == 0, hib: drawHib(c), pr: drawPr(c)}
+				if c.Rng.Intn(10) == 0 {
+					// a people dictionary from outside that does not know everybody: AuthorMissing is the author of some commits
+					o.pd = 1 + c.Rng.Intn(3)
+				}
 				if k.kind == "shape" {
 					runScale(c, "shape", o, genShape(c))
 					continue
@@ -1529,6 +1905,9 @@ func main() {
 				if k.kind == "linear" && c.Rng.Intn(3) == 0 {
 					editInPlace(c, cs)
 				}
+				if (k.kind == "linear" || k.kind == "hist") && c.Rng.Intn(6) == 0 {
+					twinFiles(c, cs)
+				}
 				if k.kind == "octo" && o.hib == 0 && c.Rng.Intn(3) > 0 {
 					o.hib = 1 + c.Rng.Intn(4)
 				}
@@ -1539,5 +1918,9 @@ func main() {
 	// 3. long histories
 	if want("pipe") || want("scale") {
 		scaleCases(c)
+	}
+	// 4. the leaf items re-used by several analyses
+	if want("pipe") || want("reuse") {
+		reuseCases(c)
 	}
 }
